@@ -13,8 +13,8 @@ RULE = ("cases = (matrix family recipe or explicit small entry list) x precision
 ASSUMPTIONS = ["relax <= maxsuper (implicit precondition, DESIGN §3)", "values within 2^±20 so that no over/underflow occurs",
                "controlled schedules separate threads only at hook points; free mode samples the rest probabilistically"]
 BUDGET = {
-    "quick": {"examples": 28000, "workers": 14, "time_budget": 75, "variants": ["asan", "omp", "long"], "variant_share": {"asan": 0.72, "omp": 0.14, "long": 0.14}},
-    "thorough": {"examples": 42000, "workers": 14, "time_budget": 1200, "variants": ["asan", "vendor", "omp", "long"], "variant_share": {"asan": 0.5, "vendor": 0.2, "omp": 0.15, "long": 0.15}},
+    "quick": {"examples": 28000, "workers": 14, "time_budget": 75, "variants": ["asan", "omp", "long", "nohook"], "variant_share": {"asan": 0.58, "omp": 0.14, "long": 0.14, "nohook": 0.14}},
+    "thorough": {"examples": 42000, "workers": 14, "time_budget": 1200, "variants": ["asan", "vendor", "omp", "long", "nohook"], "variant_share": {"asan": 0.4, "vendor": 0.15, "omp": 0.15, "long": 0.15, "nohook": 0.15}},
 }
 
 
